@@ -554,6 +554,20 @@ def r_containment(ctx: Ctx, rule: str):
     for p in parses:
         recv = ctx.path_at(p, p.ast.func.value)
         rep.ob(rule, "the line is parsed by this session's ControlParser", recv == "self._parser", node=p, detail=str(recv))
+    # (i') the hooks argparse calls while it parses (error -> exit -> _print_message, print_help) run inside parse_args: whatever
+    # they raise besides the two classes made for it passes the handlers above
+    hooks = [cp.methods[h] for h in ("error", "exit", "_print_message", "print_help", "print_usage", "format_help", "format_usage") if h in cp.methods]
+    rep.floor(rule, "parser hooks that run inside parse_args", len(hooks), 3)
+    own = ("exceptions.ParserError", "exceptions.HelpRequested")
+    for h in hooks:
+        hg = ctx.an.cfg(h)
+        for x in [x for x in hg.raise_exits.values() if x.pred]:
+            ok = any(ctx.hier.is_sub(x.tok[0], a) for a in own)
+            src = next((m[0] if isinstance(m, tuple) else m for m in x.pred), None)
+            rep.ob(rule, "a parser hook that runs inside parse_args (error / exit / _print_message / print_help) leaves exceptionally only as ParserError or "
+                         "HelpRequested - the classes _parse_command answers", ok, func=h, construct=f"raise exit {x.tok[0].rpartition('.')[2]}",
+                   detail="" if ok else f"`{src.text(60) if src is not None else '?'}` can raise {x.tok[0].rpartition('.')[2]}: it escapes parse_args past the handlers, the line "
+                                        "gets no reply and the connection dies")
     # (ii) the type wrapper
     outer = ctx.prog.functions.get(f"{PARSER_MOD}._get_arg_type_wrapper")
     if outer is None:
